@@ -94,13 +94,14 @@ type recorder struct {
 	shutdown   bool
 	stopLogged bool
 	dialUDP    bool
-	suppress   bool          // loop-thread system calls made by the harness's own extra actions are not part of the trace
-	acceptGate chan struct{} // when set, the loop thread waits here before accept(2)
+	ptr2fd     map[uint64]int // poll_opt: epoll data (attachment pointer) -> descriptor it was registered for
+	suppress   bool           // loop-thread system calls made by the harness's own extra actions are not part of the trace
+	acceptGate chan struct{}  // when set, the loop thread waits here before accept(2)
 	client     bool
 }
 
 func newRecorder() *recorder {
-	r := &recorder{gidM: map[int]int{}, otherG: map[int64]bool{}, idleG: map[int64]bool{}, nloops: 1, fdCid: map[int]int{}, owned: map[int]string{}, delivered: map[int][]byte{},
+	r := &recorder{ptr2fd: map[uint64]int{}, gidM: map[int]int{}, otherG: map[int64]bool{}, idleG: map[int64]bool{}, nloops: 1, fdCid: map[int]int{}, owned: map[int]string{}, delivered: map[int][]byte{},
 		handed: map[int]int{}, handedB: map[int][]byte{}, faulted: map[int]string{}, closing: map[int]bool{}, counters: map[string]int{}, canaries: map[int]*net.UDPConn{},
 		loopEpfd: -1, loopEfd: -1, accEpfd: -1}
 	r.cond = sync.NewCond(&r.mu)
@@ -461,6 +462,10 @@ func (r *recorder) After(c *vunix.Call) {
 		if !c.Skip {
 			delete(r.owned, c.Fd)
 		}
+	case "epoll_ctl":
+		if pollOpt && c.Err == nil && c.Arg != unix.EPOLL_CTL_DEL {
+			r.ptr2fd[c.Data] = c.Arg2
+		}
 	}
 	if g == r.accG && (c.Name == "accept4" || c.Name == "accept") && c.Err == nil {
 		// the main reactor hands the socket to loop accCount % nloops (round-robin)
@@ -522,7 +527,16 @@ func (r *recorder) After(c *vunix.Call) {
 			r.wakeSeq++
 			args := []string{}
 			for i := 0; i < c.Ret; i++ {
-				args = append(args, tr.I(int(c.EvList[i].Fd)), tr.I(int(c.EvList[i].Events)))
+				fd := int(c.EvList[i].Fd)
+				if pollOpt { // the event carries the attachment pointer, not the descriptor
+					d := uint64(uint32(c.EvList[i].Fd)) | uint64(uint32(c.EvList[i].Pad))<<32
+					if f, ok := r.ptr2fd[d]; ok {
+						fd = f
+					} else {
+						fd = -2
+					}
+				}
+				args = append(args, tr.I(fd), tr.I(int(c.EvList[i].Events)))
 			}
 			r.add("op", tr.L("wait", args...))
 		}
